@@ -445,7 +445,7 @@ type c20Model struct {
 }
 
 var c20Ops = []string{"v=FromArray(s)", "v.SetAsArray(s)", "s[0]=x", "v.SetByIndex(0,x)", "v.SetByIndex(len,x)", "v.SetByIndex(len+2,x)", "v.SetLength(len+1)",
-	"w=v.Clone()", "w.SetByIndex(0,x)", "v.Assign(w)", "v.Clear()", "v.SetAsInteger(1)", "w.SetLength(len+2)", "w=NewVariant(v)"}
+	"w=v.Clone()", "w.SetByIndex(0,x)", "v.Assign(w)", "v.Clear()", "v.SetAsInteger(1)", "w.SetLength(len+2)", "w=NewVariant(v)", "v[first null filler].SetAsInteger(7)"}
 
 func c20Hist(h []int) string {
 	p := []string{}
@@ -464,6 +464,14 @@ func c20SeqRun(c *fw.Ctx, h []int) {
 		return m.nextElem, e
 	}
 	m := &c20Model{}
+	// null fillers created by growth have their own identity (negative ids); fillVal is their value (0 = Null)
+	fillVal := map[int]int{}
+	nextFill := 0
+	newFill := func() int {
+		nextFill--
+		fillVal[nextFill] = 0
+		return nextFill
+	}
 	v, w := variants.EmptyVariant(), variants.EmptyVariant()
 	s := []*variants.Variant{}
 	for k := 0; k < 2; k++ {
@@ -495,9 +503,13 @@ func c20SeqRun(c *fw.Ctx, h []int) {
 				}
 				for i, id := range e {
 					g := x.GetByIndex(i)
-					if id == 0 {
-						if g == nil || g.Type() != variants.Null {
-							return fmt.Sprintf("%s[%d] should be a Null filler", name, i)
+					if id <= 0 {
+						if fillVal[id] == 0 {
+							if g == nil || g.Type() != variants.Null {
+								return fmt.Sprintf("%s[%d] should be a Null filler but is %s", name, i, variantStr(g))
+							}
+						} else if g == nil || g.Type() != variants.Integer || g.AsInteger() != fillVal[id] {
+							return fmt.Sprintf("%s[%d] should be the filler that was set to %d", name, i, fillVal[id])
 						}
 					} else if g != elems[id] {
 						gs := "<nil>"
@@ -563,7 +575,7 @@ func c20SeqRun(c *fw.Ctx, h []int) {
 				id, e := newElem(m)
 				v.SetByIndex(idx, e)
 				for len(m.vE) <= idx {
-					m.vE = append(m.vE, 0)
+					m.vE = append(m.vE, newFill())
 				}
 				m.vE[idx] = id
 				if m.shared {
@@ -575,7 +587,7 @@ func c20SeqRun(c *fw.Ctx, h []int) {
 					return
 				}
 				v.SetLength(len(m.vE) + 1)
-				m.vE = append(m.vE, 0)
+				m.vE = append(m.vE, newFill())
 				if m.shared {
 					m.wU = true
 				}
@@ -601,7 +613,7 @@ func c20SeqRun(c *fw.Ctx, h []int) {
 				id, e := newElem(m)
 				w.SetByIndex(0, e)
 				if len(m.wE) == 0 {
-					m.wE = append(m.wE, 0)
+					m.wE = append(m.wE, newFill())
 				}
 				m.wE[0] = id
 				if m.shared {
@@ -621,13 +633,32 @@ func c20SeqRun(c *fw.Ctx, h []int) {
 				v.SetAsInteger(1)
 				m.vT, m.vE, m.vI, m.vU = 1, nil, 1, false
 				m.shared = false
+			case 14:
+				// mutate a null filler element of v in place: no other filler, in any variant, may change
+				if m.vT != 2 || m.vU {
+					applicable = false
+					return
+				}
+				k := -1
+				for i, id := range m.vE {
+					if id < 0 && fillVal[id] == 0 {
+						k = i
+						break
+					}
+				}
+				if k < 0 {
+					applicable = false
+					return
+				}
+				v.GetByIndex(k).SetAsInteger(7)
+				fillVal[m.vE[k]] = 7
 			case 12:
 				if m.wT != 2 || m.wU {
 					applicable = false
 					return
 				}
 				w.SetLength(len(m.wE) + 2)
-				m.wE = append(m.wE, 0, 0)
+				m.wE = append(m.wE, newFill(), newFill())
 				if m.shared {
 					m.vU = true
 				}
@@ -646,6 +677,10 @@ func c20SeqRun(c *fw.Ctx, h []int) {
 			return
 		}
 	}
+	if variants.Empty == nil || variants.Empty.Type() != variants.Null {
+		c.Violation("shared-empty-variant-modified", "after [%s]: the package-level variants.Empty is now %s", c20Hist(h), variantStr(variants.Empty))
+		variants.Empty = variants.EmptyVariant()
+	}
 	c.Count("transitions", int64(len(h)))
 	c.Count("states", 1)
 	if len(h) >= 2 {
@@ -659,7 +694,7 @@ func init() {
 		ID:    "C20",
 		Level: "model_checking",
 		Rule: "(a) every host value of every listed Go type with boundaries x 5 ways of building a variant: reported type and typed accessor = reference mapping, lists copied; (b) Equals over pool x pool: no panic, symmetric, agrees with a structural reference where that is defined, clone equals original; " +
-			"(c) every history up to the depth bound over 14 operations on two variants and one caller-owned list (construct/set from list, caller write, indexed writes at 0/len/len+2, SetLength, Clone, NewVariant(v), Assign, Clear, SetAsInteger), replayed on fresh objects against a value model in which every variant owns its element list; non-trivial = applicable histories of >=2 steps / same-type pairs",
+			"(c) every history up to the depth bound over 15 operations on two variants and one caller-owned list (construct/set from list, caller write, indexed writes at 0/len/len+2, SetLength, Clone, NewVariant(v), Assign, Clear, SetAsInteger, in-place mutation of a null filler element), replayed on fresh objects against a value model in which every variant owns its element list; non-trivial = applicable histories of >=2 steps / same-type pairs",
 		Assume: []string{"after Assign of an array the model does not predict whether storage is shared (accepted either way)", "Equals on date-times denoting the same instant in different zones and on uncomparable object payloads is unspecified (only symmetry and no panic are demanded)"},
 		Spaces: func(tier string) []fw.Space {
 			hosts := c20Hosts()
@@ -684,9 +719,9 @@ func init() {
 		},
 		Bounds: func(tier string) string {
 			if tier == "thorough" {
-				return "all operation histories of length<=5 over 14 operations; full pool x pool equality matrix"
+				return "all operation histories of length<=5 over 15 operations; full pool x pool equality matrix"
 			}
-			return "all operation histories of length<=4 over 14 operations; full pool x pool equality matrix"
+			return "all operation histories of length<=4 over 15 operations; full pool x pool equality matrix"
 		},
 	})
 }
